@@ -8,6 +8,7 @@ import json
 import os
 
 from lib import vlib
+from engines import gossip
 from lib.vlib import Infra
 
 SPEC = os.path.join(vlib.SPECS, "pex")
@@ -31,6 +32,7 @@ def run(res, prop, tier, seed, work, replay=None):
         sig = "pex:%s:%s" % (r["op"], parts[1])
         rp = vlib.save_replay(work, "C26_%d_%d.json" % (r["seq"], r["step"]), {"engine": "pex", "signature": sig, "seed": seed, "tier": tier, "record": r}) if i < 30 else ""
         res.mismatch("C26", sig, "sequence %d step %d: %s(%s) -> %s; Pex.tla disagrees: %s" % (r["seq"], r["step"], r["op"], json.dumps([a["raw"] for a in r["args"]]), r["res"], parts[1]), rp)
+    gossip.run_peers(res, prop, tier, seed, work)      # the same rules, reached through GIVP / GETP on a real node
     all_recs = vlib.read_ndjson(recs)
     per = collections.Counter("%s/%s" % (r["op"], r["res"]) for r in all_recs)
     classes = collections.Counter("%s:%s" % (a["class"], a["port"]) for r in all_recs if r["op"] in ("add", "bulk") for a in r["args"])
